@@ -222,7 +222,7 @@ class C14(Prop):
     coq_files = ("Base", "C14_Model", "C14_Spec", "C14_Proofs", "C14_Props")
     models = ("C14_Model",)
     packages = {"tr": "internal/tracer"}
-    kinds = {"c14.raw": "tr", "c14.reader": "tr", "c14.writer": "tr", "c14.props": "tr"}
+    kinds = {"c14.raw": "tr", "c14.reader": "tr", "c14.writer": "tr", "c14.props": "tr", "c14.rt": "tr", "c14.handler": "tr"}
     rule = ("envelope sequences (0-5 messages; flags from {0,1,2,3,0x80,0x81,0x82,0xff,...} and random 0..255; lengths 0,1,..6 and random <= 600; "
             "end-stream messages for Connect (0x02) and gRPC-Web (0x80), flagged compressed or not, payload = output of the repository's own "
             "compressor for the negotiated encoding / plain text / refused garbage / empty; negotiated encoding identity, the five named ones, "
@@ -230,7 +230,9 @@ class C14(Prop):
             "chunkings (single, byte-by-byte, boundary-aligned, boundary+-1, random with empty chunks) of larger ones x every truncation point of "
             "medium streams, request and response side, through three entry points: raw dataTracer.trace/emitUnfinished (c14.raw), "
             "newReader/tracingReader.Read/Close with a scripted inner reader incl. data+EOF, (0,EOF), other error, Close, calls after the end "
-            "(c14.reader), tracingResponseWriter.Write/tryFinish with scripted (n, err) incl. short writes (c14.writer); header detection "
+            "(c14.reader), tracingResponseWriter.Write/tryFinish with scripted (n, err) incl. short writes (c14.writer); the same scripts through TracingRoundTripper with a fake transport "
+            "(c14.rt: response pointer, status, headers, trailers unchanged) and TracingHandler with a fake ResponseWriter (c14.handler: status, "
+            "headers, trailers reach the inner writer); heap allocation around every tracer call metered against 16 MiB + 64 x bytes traced; header detection "
             "(c14.props). Compared: event list (kind, side, index, flags, declared length, byte count, end-stream content, body-end error class) "
             "and the bytes/counts/errors the wrapper's caller got. non-trivial = at least one data event")
     trusted_base = ("Coq 8.16.1 kernel", "extraction (ExtrOcamlBasic only) + ocaml/driver.ml",
@@ -381,7 +383,7 @@ class C14(Prop):
                 yield ["c14.reader", 0, conn, [], reader_ops(chunks, "eof")]
 
         # 2. random larger streams, random chunkings, through all entry points
-        n_rand = 30000 if quick else 250000
+        n_rand = 30000 if quick else 500000
         for _ in range(n_rand):
             r = rng.random()
             entry = "raw" if r < 0.4 else ("reader" if r < 0.75 else "writer")
@@ -405,9 +407,15 @@ class C14(Prop):
             if entry == "raw":
                 yield raw(req, stream, dk, enc, table, chunks)
             elif entry == "reader":
-                yield ["c14.reader", req, hdr, table, reader_ops(chunks, rng.choice(endings))]
+                ops = reader_ops(chunks, rng.choice(endings))
+                yield ["c14.reader", req, hdr, table, ops]
+                if not req and any(o[0] == 1 or o[2] != IONONE for o in ops) and rng.random() < 0.5:
+                    yield ["c14.rt", 0, hdr, table, ops]            # through TracingRoundTripper
             else:
-                yield ["c14.writer", hdr, table, writer_ops(chunks, None if rng.random() < 0.85 else rng.randrange(len(chunks) + 1))]
+                ops = writer_ops(chunks, None if rng.random() < 0.85 else rng.randrange(len(chunks) + 1))
+                yield ["c14.writer", hdr, table, ops]
+                if rng.random() < 0.5:
+                    yield ["c14.handler", hdr, table, ops]          # through TracingHandler
 
         # 3. every truncation point of medium streams
         for _ in range(70 if quick else 600):
